@@ -30,6 +30,7 @@ type Env struct {
 	callers  map[*ssa.Function]*callerInfo
 	apiReach map[*ssa.Function]bool
 	keyFns   map[*types.Func]bool // verified name-to-bit functions (namesrep.go)
+	keyFuncs map[*facts.Level]map[string]*keyFunc
 }
 
 // callerInfo: who calls a function statically, and whether the function is
